@@ -43,6 +43,31 @@ type PkgResult struct {
 	Ann     []string // the AnnotationReader result, one item per annotation (sorted), in the model's encoding
 	Markers []string // the IgnoreReader result: "start-end:CODE+CODE" per marker (sorted)
 	HasAnn  bool
+	// Mutated names what the analysis changed in the inputs it shares with every other analyzer of the run (the
+	// type-checked package's import list, the identifiers of the syntax trees); empty if nothing
+	Mutated string
+}
+
+// fingerprint of what the analyzers are given read-only: import order and every identifier of the syntax trees
+func fingerprint(p *packages.Package) (imports string, idents string) {
+	if p.Types != nil {
+		var l []string
+		for _, imp := range p.Types.Imports() {
+			l = append(l, imp.Path())
+		}
+		imports = strings.Join(l, ",")
+	}
+	var b strings.Builder
+	for _, f := range p.Syntax {
+		ast.Inspect(f, func(n ast.Node) bool {
+			if id, ok := n.(*ast.Ident); ok {
+				b.WriteString(id.Name)
+				b.WriteByte(' ')
+			}
+			return true
+		})
+	}
+	return imports, b.String()
 }
 
 // Load loads the module rooted at dir with full syntax for all dependencies (what the drivers do).
@@ -193,11 +218,31 @@ func SetConfig(scanTests bool, excludePaths, excludeChecks *string) {
 
 // Analyze runs the real analyzers on the root packages (and, for facts, on their dependencies).
 func Analyze(roots []*packages.Package, sequential, sanity bool) (map[string]*PkgResult, error) {
+	type fp struct{ imports, idents string }
+	before := map[string]fp{}
+	for _, p := range roots {
+		i, d := fingerprint(p)
+		before[p.ID] = fp{i, d}
+	}
 	g, err := checker.Analyze(cloneAnalyzers(), roots, &checker.Options{Sequential: sequential, SanityCheck: sanity})
 	if err != nil {
 		return nil, err
 	}
 	out := map[string]*PkgResult{}
+	for _, p := range roots {
+		i, d := fingerprint(p)
+		r := &PkgResult{ID: p.ID}
+		out[p.ID] = r
+		if b := before[p.ID]; b.imports != i {
+			r.Mutated = "the import list of the type-checked package was reordered: " + b.imports + " -> " + i
+		} else if b.idents != d {
+			k := 0
+			for k < len(d) && k < len(b.idents) && d[k] == b.idents[k] {
+				k++
+			}
+			r.Mutated = "an identifier of the syntax tree was rewritten near: ..." + b.idents[max(0, k-30):min(len(b.idents), k+30)] + "... -> ..." + d[max(0, k-30):min(len(d), k+30)] + "..."
+		}
+	}
 	for act := range g.All() {
 		id := act.Package.ID
 		r := out[id]
